@@ -884,6 +884,7 @@ func (s *Session) acc(msg *ClientComMessage) {
 		if authHdl == nil {
 			logs.Warn.Println("s.acc: unknown authentication scheme", msg.Acc.TmpScheme, s.sid)
 			s.queueOut(ErrAuthUnknownScheme(msg.Id, "", msg.Timestamp))
+			return
 		}
 
 		var err error
